@@ -2063,12 +2063,54 @@ func (c *compiler) isPrivateArgument(e *ast.FuncCall, paramName string) bool {
 		}
 		return nil
 	}
-	for _, param := range e.Func.Parameters {
-		if param.Type.IsReference && root(e.Args[param.Name.Literal]) == ast.Declaration(decl) {
-			return false
+	passedAsReference := func(fun *ast.FuncDecl, args map[string]ast.Expression) bool {
+		for _, param := range fun.Parameters {
+			if param.Type.IsReference && root(args[param.Name.Literal]) == ast.Declaration(decl) {
+				return true
+			}
+		}
+		return false
+	}
+	if passedAsReference(e.Func, e.Args) {
+		return false
+	}
+	// a call (or overloaded operator) nested in another argument might receive the variable as reference as well
+	finder := &referencePassFinder{passedAsReference: passedAsReference}
+	for name, otherArg := range e.Args {
+		if name != paramName {
+			ast.VisitNode(finder, otherArg, nil)
 		}
 	}
-	return true
+	return !finder.found
+}
+
+// looks for calls that pass a certain variable as reference
+type referencePassFinder struct {
+	passedAsReference func(fun *ast.FuncDecl, args map[string]ast.Expression) bool
+	found             bool
+}
+
+func (*referencePassFinder) Visitor() {}
+
+// called for every node, used to inspect calls and overloaded operators alike
+func (f *referencePassFinder) ShouldVisit(node ast.Node) bool {
+	var overload *ast.OperatorOverload
+	switch node := node.(type) {
+	case *ast.FuncCall:
+		f.found = f.found || f.passedAsReference(node.Func, node.Args)
+	case *ast.UnaryExpr:
+		overload = node.OverloadedBy
+	case *ast.BinaryExpr:
+		overload = node.OverloadedBy
+	case *ast.TernaryExpr:
+		overload = node.OverloadedBy
+	case *ast.CastExpr:
+		overload = node.OverloadedBy
+	}
+	if overload != nil {
+		f.found = f.found || f.passedAsReference(overload.Decl, overload.Args)
+	}
+	return !f.found
 }
 
 func (c *compiler) VisitFuncCall(e *ast.FuncCall) ast.VisitResult {
